@@ -16,6 +16,34 @@ pub enum Op {
     Skip(u64),
     Pos,
     Len,
+    /// `read_exact` of the total length carried out through VECTORED reads into slices of these lengths (0 = an empty
+    /// slice, which a vectored read must step over); `k` slices
+    Readv { lens: [u8; 4], k: u8 },
+}
+
+impl Op {
+    fn readv(lens: &[u8]) -> Op {
+        let mut a = [0u8; 4];
+        a[..lens.len()].copy_from_slice(lens);
+        Op::Readv { lens: a, k: lens.len() as u8 }
+    }
+    fn total(&self) -> u64 {
+        match self {
+            Op::Readv { lens, k } => lens[..*k as usize].iter().map(|&l| l as u64).sum(),
+            Op::Read(n) => *n,
+            _ => 0,
+        }
+    }
+}
+
+/// account `n` freshly read bytes to the slices in order; false if `n` exceeds what was offered
+fn account(filled: &mut [usize], lens: &[u8], mut n: usize) -> bool {
+    for (f, l) in filled.iter_mut().zip(lens) {
+        let take = n.min(*l as usize - *f);
+        *f += take;
+        n -= take;
+    }
+    n == 0
 }
 
 pub fn ops_text(ops: &[Op]) -> String {
@@ -25,6 +53,7 @@ pub fn ops_text(ops: &[Op]) -> String {
             Op::Skip(n) => format!("s{n}"),
             Op::Pos => "p".into(),
             Op::Len => "l".into(),
+            Op::Readv { lens, k } => format!("v{}", lens[..*k as usize].iter().map(|l| l.to_string()).collect::<Vec<_>>().join("+")),
         })
         .collect::<Vec<_>>()
         .join(",")
@@ -37,6 +66,7 @@ pub fn parse_ops(s: &str) -> Vec<Op> {
             "r" => Op::Read(t[1..].parse().unwrap()),
             "s" => Op::Skip(t[1..].parse().unwrap()),
             "p" => Op::Pos,
+            "v" => Op::readv(&t[1..].split('+').map(|x| x.parse().unwrap()).collect::<Vec<u8>>()),
             _ => Op::Len,
         })
         .collect()
@@ -63,9 +93,52 @@ fn run_sync<R: Read + Skip>(mut r: R, ops: &[Op]) -> String {
             Op::Skip(n) => res_text(r.skip(*n).map(|_| "ok")),
             Op::Pos => res_text(r.stream_position()),
             Op::Len => res_text(r.stream_len()),
+            Op::Readv { lens, k } => {
+                let lens = &lens[..*k as usize];
+                let total: usize = lens.iter().map(|&l| l as usize).sum();
+                let mut storage: Vec<Vec<u8>> = lens.iter().map(|&l| vec![0u8; l as usize]).collect();
+                let mut filled = vec![0usize; lens.len()];
+                let mut err = None;
+                while filled.iter().sum::<usize>() < total {
+                    let res = {
+                        let mut slices: Vec<io::IoSliceMut<'_>> =
+                            storage.iter_mut().zip(&filled).map(|(b, f)| io::IoSliceMut::new(&mut b[*f..])).collect();
+                        r.read_vectored(&mut slices)
+                    };
+                    match res {
+                        Ok(0) => { err = Some("EUnexpectedEof".to_string()); break }
+                        Ok(n) => if !account(&mut filled, lens, n) { err = Some("Eoverlong".to_string()); break },
+                        Err(e) => { err = Some(format!("E{}", crate::mp4run::io_kind(e.kind()))); break }
+                    }
+                }
+                err.unwrap_or_else(|| hex(&storage.concat()))
+            }
         });
     }
     out.join(",")
+}
+
+macro_rules! readv_async {
+    ($r:expr, $lens:expr, $k:expr, $wait:expr) => {{
+        let lens = &$lens[..*$k as usize];
+        let total: usize = lens.iter().map(|&l| l as usize).sum();
+        let mut storage: Vec<Vec<u8>> = lens.iter().map(|&l| vec![0u8; l as usize]).collect();
+        let mut filled = vec![0usize; lens.len()];
+        let mut err = None;
+        while filled.iter().sum::<usize>() < total {
+            let res = {
+                let mut slices: Vec<io::IoSliceMut<'_>> =
+                    storage.iter_mut().zip(&filled).map(|(b, f)| io::IoSliceMut::new(&mut b[*f..])).collect();
+                $wait($r.read_vectored(&mut slices))
+            };
+            match res {
+                Ok(0) => { err = Some("EUnexpectedEof".to_string()); break }
+                Ok(n) => if !account(&mut filled, lens, n) { err = Some("Eoverlong".to_string()); break },
+                Err(e) => { err = Some(format!("E{}", crate::mp4run::io_kind(e.kind()))); break }
+            }
+        }
+        err.unwrap_or_else(|| hex(&storage.concat()))
+    }};
 }
 
 fn run_async<R: futures_util::io::AsyncRead + mediasan_common::AsyncSkip + Unpin>(mut r: R, ops: &[Op]) -> String {
@@ -82,6 +155,7 @@ fn run_async<R: futures_util::io::AsyncRead + mediasan_common::AsyncSkip + Unpin
             Op::Skip(n) => res_text(r.skip(*n).now_or_never().expect("ready").map(|_| "ok")),
             Op::Pos => res_text(r.stream_position().now_or_never().expect("ready")),
             Op::Len => res_text(r.stream_len().now_or_never().expect("ready")),
+            Op::Readv { lens, k } => readv_async!(r, lens, k, |f: futures_util::io::ReadVectored<'_, R>| f.now_or_never().expect("ready")),
         });
     }
     out.join(",")
@@ -115,6 +189,7 @@ fn run_async_driven<R: futures_util::io::AsyncRead + mediasan_common::AsyncSkip 
             Op::Skip(n) => res_text(drive(r.skip(*n)).map(|_| "ok")),
             Op::Pos => res_text(drive(r.stream_position())),
             Op::Len => res_text(drive(r.stream_len())),
+            Op::Readv { lens, k } => readv_async!(r, lens, k, drive),
         });
     }
     out.join(",")
@@ -140,8 +215,8 @@ fn run_chunk_data(d: Vec<u8>, depth: u8, ops: &[Op]) -> String {
     }
 }
 
-pub const ADAPTERS: [&str; 17] = [
-    "abufreader-pend", "apinbox-pend", "arefmut", "abox",
+pub const ADAPTERS: [&str; 19] = [
+    "syncadapter", "abufreader-syncadapter", "abufreader-pend", "apinbox-pend", "arefmut", "abox",
     "cursor", "seekskip", "bufreader", "bufreader-seekskip", "refmut", "box", "bufreader-box-bufreader", "file",
     "acursor", "aseekskip", "abufreader", "apinbox", "abufreader-abufreader",
 ];
@@ -175,6 +250,12 @@ pub fn run_adapter(adapter: &str, cap: usize, s: &Sparse, ops: &[Op]) -> String 
                         let _ = std::fs::remove_file(&path);
                         r
                     }
+                    // the forwarding adapter every blocking `sanitize` call wraps its input in (common/src/sync.rs), bare and
+                    // under the futures BufReader the sanitizers stack on it
+                    "syncadapter" => mediasan_common::sync::sanitize(Cursor::new(d), |a| std::future::ready(run_async(a, ops))),
+                    "abufreader-syncadapter" => mediasan_common::sync::sanitize(Cursor::new(d), |a| {
+                        std::future::ready(run_async(ABufReader::with_capacity(cap, a), ops))
+                    }),
                     "acursor" => run_async(ACursor::new(d), ops),
                     "aseekskip" => run_async(SeekSkipAdapter(ACursor::new(d)), ops),
                     "abufreader" => run_async(ABufReader::with_capacity(cap, ACursor::new(d)), ops),
@@ -225,6 +306,12 @@ fn within(ops: &[Op], len: u64) -> Vec<Op> {
                     break;
                 }
                 pos += *n as u128;
+            }
+            Op::Readv { .. } => {
+                if pos + op.total() as u128 > len as u128 {
+                    break;
+                }
+                pos += op.total() as u128;
             }
             _ => {}
         }
@@ -370,6 +457,31 @@ pub fn run<W: Write>(opts: &Opts, out: &mut W) {
         }
     }
     chunk_data_cases(opts, out, &mut rng.fork(0xCD));
+    // vectored reads: every shape of 1..3 slices with lengths from {0, 1, 2, 5} (0 = an empty slice to be stepped over),
+    // after a read and a skip, followed by position / length / a plain read; every adapter; capacities below, at and
+    // above the total
+    let s24 = Sparse::from_bytes(&(0u8..24).collect::<Vec<_>>());
+    let sizes = [0u8, 1, 2, 5];
+    let mut vi = 0u64;
+    for k in 1..=3usize {
+        for code in 0..sizes.len().pow(k as u32) {
+            let mut c = code;
+            let lens: Vec<u8> = (0..k).map(|_| { let l = sizes[c % sizes.len()]; c /= sizes.len(); l }).collect();
+            let ops = within(&[Op::Read(3), Op::Skip(2), Op::readv(&lens), Op::Pos, Op::Len, Op::Read(2), Op::readv(&lens), Op::Pos], 24);
+            for adapter in ADAPTERS {
+                for cap in [1usize, 4, 8192] {
+                    vi += 1;
+                    if !opts.mine(vi) {
+                        continue;
+                    }
+                    if cap != 1 && ["cursor", "seekskip", "acursor", "aseekskip", "syncadapter"].contains(&adapter) {
+                        continue;
+                    }
+                    emit(out, &format!("vec-{k}-{code}-{adapter}-{cap}"), adapter, cap, &s24, &ops);
+                }
+            }
+        }
+    }
     // long random histories on dense streams, every adapter, capacities 1..64 and the default 8192
     let m = if opts.tier_thorough { 20000 } else { 2000 };
     for i in 0..m {
@@ -388,7 +500,13 @@ pub fn run<W: Write>(opts: &Opts, out: &mut W) {
             _ => 1 + r.below(64) as usize,
         };
         let ops: Vec<Op> = (0..nops)
-            .map(|_| match r.below(8) {
+            .map(|_| match r.below(10) {
+                8 | 9 => {
+                    // vectored: 1-4 slices, every other one possibly empty (a leading empty slice must be stepped over)
+                    let k = 1 + r.below(4) as usize;
+                    let lens: Vec<u8> = (0..k).map(|_| if r.below(3) == 0 { 0 } else { r.below(cap as u64 + 3).min(20) as u8 }).collect();
+                    Op::readv(&lens)
+                }
                 0 | 1 => Op::Read(r.below(cap as u64 * 2 + 2).min(40)),
                 2 => Op::Read(r.below(5)),
                 3 => Op::Skip(0),
